@@ -130,7 +130,9 @@ def run_shard(spec, rep):
                 else:
                     rep.require("twin run has the same outcome as the base run", st == "slow", case, {"twin": "area/time", "outcome": st, "error": repr(tw)})
             st, tw = sc.run(conditions=scaled_conditions(sc, k, k))
-            if st == "ok":
+            if st == "ok" and proc.runaway(base, sc.m0):
+                rep.count("arbitrary_factor_twin_skipped(runaway trajectory)")
+            elif st == "ok":
                 twins += 1
                 compare(rep, "area and feed x k: intensive series unchanged, masses and heats x k (1e-11)", case, base, tw, k, False,
                         rel=min(1e-6, 1e-12 * conditioning(sc, base) + 1e-11))
